@@ -193,3 +193,27 @@ func VH_C12_InviteNewChat() {
 	res = HandleChatSend(cc, &st)
 	vAssert("invited_but_not_joined_receives_nothing", c12Count(res, b.ID, hotline.TranChatMsg) == 0 && c12Count(res, cc.ID, hotline.TranChatMsg) == 1 && len(res) == 1)
 }
+
+// A member that disconnects without sending Leave Chat is no longer a member: whoever holds its user ID later (IDs
+// of departed users are handed out again, see C13) receives nothing from that chat.
+func VH_C12_DisconnectedMemberReceivesNothingFurther_sym() {
+	srv, cc, b, _ := c12Setup("me")
+	cc.Account.Access = hotline.AccessBitmap{0xff, 0xff, 0xff, 0xff, 0xff, 0xff, 0xff, 0xff}
+	chat := srv.ChatMgr.New(cc)
+	vAssume(chat != hotline.ChatID{})
+	srv.ChatMgr.Join(chat, b)
+	oldID := b.ID
+	b.Disconnect()
+	vAssert("departed_member_left_the_chat", len(srv.ChatMgr.Members(chat)) == 1)
+	// a newcomer that was given the departed member's ID
+	d := &hotline.ClientConn{Connection: &vConn{}, Server: srv, Account: &hotline.Account{Login: "dee", Name: "dee", Access: cc.Account.Access},
+		UserName: []byte("dee"), RemoteAddr: "10.0.0.9:5500", Icon: []byte{0, 1}, Logger: vLogger()}
+	srv.ClientMgr.Add(d)
+	d.ID = oldID
+	t := hotline.NewTransaction(hotline.TranChatSend, cc.ID, hotline.NewField(hotline.FieldData, []byte("psst")), hotline.NewField(hotline.FieldChatID, chat[:]))
+	res := HandleChatSend(cc, &t)
+	vAssert("later_holder_of_the_id_gets_no_private_line", c12Count(res, oldID, hotline.TranChatMsg) == 0)
+	st := hotline.NewTransaction(hotline.TranSetChatSubject, cc.ID, hotline.NewField(hotline.FieldChatID, chat[:]), hotline.NewField(hotline.FieldChatSubject, []byte("topic")))
+	res = HandleSetChatSubject(cc, &st)
+	vAssert("later_holder_of_the_id_gets_no_subject_notice", c12Count(res, oldID, hotline.TranNotifyChatSubject) == 0)
+}
